@@ -703,6 +703,23 @@ impl BytecodeInterpreter {
     }
 }
 
+#[cfg(feature = "verif")]
+impl BytecodeInterpreter {
+    /// Verification hook: the raw (unsimplified) value bound to a global name.
+    pub fn verif_raw_global(&self, name: &str) -> Option<Value> {
+        let position = self.locals[0]
+            .iter()
+            .rposition(|l| l.identifiers.iter().any(|n| n == name))?;
+        self.vm.verif_stack_get(position)
+    }
+
+    /// Verification hook: the simplification applied to displayed results.
+    pub fn verif_simplify(&self, q: &crate::quantity::Quantity) -> crate::quantity::Quantity {
+        self.vm
+            .simplify_quantity(q, &self.unit_name_to_constant_index)
+    }
+}
+
 impl Interpreter for BytecodeInterpreter {
     fn new() -> Self {
         Self {
